@@ -168,7 +168,9 @@ def cmd_check(prop, tier, seed, only=None, jobs=None):
         lib.update(r["lib"])
         for g in r["generation_errors"]:
             generr.append((r, g))
-        if r["bounded"]["sat_paths"] == 0:
+        if r["bounded"]["sat_paths"] == 0 and not r["generation_errors"]:
+            # (a case ALL of whose paths left the modelled subset has generated nothing: it is undecided -- reported as such and
+            # handed to the native fallback --, not vacuous)
             vacuous.append(r)
         for nm, st in r["canaries"].items():
             canaries_total += 1
